@@ -80,7 +80,8 @@ def encEntry (e : Entry) : Sexp := .list [encodeNat e.source, encLoc e.target]
 
 def modelProg (E : Env String) (S : Subst) (is : List Instruction) : Sexp :=
   let p := Prog.fromInstructions is
-  let r := match expandCalibrationsWith E S p FUEL false with
+  let first := expandCalibrationsWith E S p FUEL false
+  let r := match first with
     | .ok r => .list [.atom "ok", encodeInstructionList r.1.toInstructions]
     | .recursiveCalibration i => .list [.atom "recursive", encodeInstruction i]
     | .outOfFuel => .list [.atom "out-of-fuel"]
@@ -89,7 +90,15 @@ def modelProg (E : Env String) (S : Subst) (is : List Instruction) : Sexp :=
         .list ((r.2.getD []).map encEntry)]
     | .recursiveCalibration i => .list [.atom "recursive", encodeInstruction i]
     | .outOfFuel => .list [.atom "out-of-fuel"]
-  .list [.atom "out", r, m]
+  -- expanding the expanded program once more
+  let again : Sexp := match first with
+    | .ok r =>
+      match expandCalibrationsWith E S r.1 FUEL false with
+      | .ok r2 => .atom (if encodeInstructionList r2.1.toInstructions == encodeInstructionList r.1.toInstructions
+          then "same" else "differs")
+      | _ => .atom "error"
+    | _ => .atom "na"
+  .list [.atom "out", r, m, again]
 
 def encExpand : Outcome (Option (List Instruction)) → Sexp
   | .ok none => .list [.atom "ok", .list [.atom "none"], .atom "same"]
